@@ -71,8 +71,8 @@ func c15Gen(rt *rapid.T) wProg {
 		return out
 	}
 	noise := func(i int) {
-		s := rapid.IntRange(0, len(p.Sess)-1).Draw(rt, "s")
-		switch x := rapid.IntRange(0, 99).Draw(rt, "opk"); {
+		s := gInt(rt, 0, len(p.Sess)-1, "s")
+		switch x := gInt(rt, 0, 99, "opk"); {
 		case x < 12:
 			t := topicFor(s)
 			if gPct(rt, 10) {
@@ -107,9 +107,9 @@ func c15Gen(rt *rapid.T) wProg {
 		}
 	}
 	// call episodes between users 0 and 1 with the right parties, diluted with noise
-	nep := rapid.IntRange(1, 3).Draw(rt, "episodes")
+	nep := gInt(rt, 1, 3, "episodes")
 	for e := 0; e < nep; e++ {
-		cu := rapid.IntRange(0, 1).Draw(rt, "caller")
+		cu := gInt(rt, 0, 1, "caller")
 		a := gPick(rt, sessOf(cu), "a")
 		b := gPick(rt, sessOf(1-cu), "b")
 		ta, tb := fmt.Sprintf("p%d", 1-cu), fmt.Sprintf("p%d", cu)
@@ -128,7 +128,7 @@ func c15Gen(rt *rapid.T) wProg {
 			}
 			p.Ops = append(p.Ops, wOp{K: "note", S: b, T: tb, A: "call", B: "accept", M: 1})
 			maybeNoise(e)
-			for k, nx := 0, rapid.IntRange(0, 4).Draw(rt, "nx"); k < nx; k++ {
+			for k, nx := 0, gInt(rt, 0, 4, "nx"); k < nx; k++ {
 				ev := gPick(rt, []string{"offer", "answer", "ice-candidate"}, "xev")
 				if gPct(rt, 50) {
 					p.Ops = append(p.Ops, wOp{K: "note", S: a, T: ta, A: "call", B: ev, M: 1, H: map[string]any{"sdp": fmt.Sprintf("a%d", k)}})
@@ -138,7 +138,7 @@ func c15Gen(rt *rapid.T) wProg {
 				maybeNoise(e)
 			}
 		}
-		switch x := rapid.IntRange(0, 99).Draw(rt, "end"); {
+		switch x := gInt(rt, 0, 99, "end"); {
 		case x < 35:
 			p.Ops = append(p.Ops, wOp{K: "note", S: a, T: ta, A: "call", B: "hang-up", M: 1})
 		case x < 70:
